@@ -646,4 +646,15 @@ NecessaryN(m, c) ==
     [] m = "eu.nace" -> Len(c) \in 1..4 /\ (IF Len(c) = 1 THEN IsAlphaCp(c[1]) ELSE IsDigits(c))
     [] m = "be.ssn" -> /\ Len(c) = 11 /\ IsDigits(c) /\ ~AllZero(c) /\ BeNnChecksum(c)
                        /\ (NumOf(c, 3, 4) <= 12 \/ NumOf(c, 3, 4) \in 20..32 \/ NumOf(c, 3, 4) \in 40..52)
+
+(* formats whose acceptance depends on the system date: the year is an argument of the acceptance condition *)
+KnownClock == {"ro.onrc", "sg.uen", "be.nn", "be.bis", "be.ssn"}
+BeChecksumAt(c, y) == LET k == NumOf(c, 10, 11)
+                      IN 97 - ModOf(SubSeq(c, 1, 9), 97) = k \/ (2000 + NumOf(c, 1, 2) <= y /\ 97 - ModOf(<<50>> \o SubSeq(c, 1, 9), 97) = k)
+AcceptClock(m, c, y) ==
+  CASE m = "ro.onrc" -> NecessaryN(m, c) /\ NumOf(c, Len(c) - 3, Len(c)) <= y
+    [] m = "sg.uen" -> /\ NecessaryN(m, c)
+                       /\ (Len(c) = 10 /\ c[1] \in 48..57 => NumOf(c, 1, 4) <= y)
+                       /\ (Len(c) = 10 /\ c[1] = 84 => NumOf(c, 2, 3) <= y % 100)
+    [] m \in {"be.nn", "be.bis", "be.ssn"} -> NecessaryN(m, c) /\ BeChecksumAt(c, y)
 =============================================================================
